@@ -832,6 +832,21 @@ func (t *tr) call(c *ast.CallExpr) string {
 		}
 		return r
 	}
+	if full == "errors.Is" {
+		// the only rule for errors.Is: `Go.errorsIs err <constant>` with a target error the translator has a constant for
+		// (context.DeadlineExceeded / context.Canceled, or one the spec renames); any other classification of an error
+		// is outside the subset and must say so instead of producing an unknown Lean identifier
+		known := false
+		if len(c.Args) == 2 {
+			target := exprString(c.Args[1])
+			_, inMap := pkgMap[target]
+			_, renamed := t.spec.Rename[target]
+			known = inMap || renamed
+		}
+		if !known {
+			return t.bad("errors.Is without a rule for its target error", c)
+		}
+	}
 	if r, ok := pkgMap[full]; ok {
 		return "(" + r + " " + t.args(c.Args) + ")"
 	}
